@@ -1529,7 +1529,7 @@ def walk(
 
             # last yield on leaving walk root, which may restart the walk
 
-            if self_ and (ast := self.a):  # may have been deleted
+            if self_ and (ast := self.a) and check_all_param(self):  # may have been deleted
                 recurse_ = False
 
                 while (sent := (yield self)) is not None:
@@ -1610,7 +1610,7 @@ def walk(
 
             # last yield on leaving walk root, which may restart the walk
 
-            if self_ and (ast := self.a):  # may have been deleted
+            if self_ and (ast := self.a) and check_all_param(self):  # may have been deleted
                 recurse_ = False
                 yield_ = (self, True)
 
